@@ -246,6 +246,9 @@ nodesLoop:
 			}
 			if node.Condition != nil {
 				ti := tc.checkExpr(node.Condition)
+				if ti.Nil() {
+					panic(tc.errorf(node.Condition, "use of untyped nil"))
+				}
 				if ti.Type.Kind() != reflect.Bool {
 					panic(tc.errorf(node.Condition, "non-bool %s (type %v) used as for condition", node.Condition, ti.ShortString()))
 				}
